@@ -906,6 +906,23 @@ def install(R):
             hit = lambda r: z3.Exists([q], z3.And(q >= 0, q < m, fi.get(q) == r))
             arr.assign_fn(lambda r, c: z3.If(z3.And(c == z(col), hit(r)), cast(val, arr.kind), old.get(r, c)))
             return None
+        if isinstance(idx, NdArr) and idx.kind == "int" and idx.ndim == 1 and isinstance(val, NdArr) and val.ndim == arr.ndim:
+            # arr[positions] = values : scatter; a position listed several times keeps the value of ONE of its writers
+            # (numpy: the last one - not modelled, an over-approximation)
+            from .npmodel import shapes_equal
+            shapes_equal(E, (idx.shape[0],) + tuple(arr.shape[1:]), tuple(val.shape), node, "scatter-shape")
+            n, m = z(arr.shape[0]), z(idx.shape[0])
+            fi, fv, old = idx.snapshot(), val.snapshot(), arr.snapshot()
+            q = z3.Int(fresh_name("fq"))
+            E.safety("fancy-store-rows", z3.ForAll([q], z3.Implies(z3.And(q >= 0, q < m), z3.And(fi.get(q) >= -n, fi.get(q) < n))), node, "IndexError")
+            pos = lambda r: z3.If(fi.get(r) < 0, fi.get(r) + n, fi.get(r))
+            writer = z3.Function(fresh_name("writer"), z3.IntSort(), z3.IntSort())
+            p = z3.Int(fresh_name("fp"))
+            E.assume(z3.ForAll([p], z3.Implies(z3.Exists([q], z3.And(q >= 0, q < m, pos(q) == p)),
+                                               z3.And(writer(p) >= 0, writer(p) < m, pos(writer(p)) == p))))
+            hit = lambda r: z3.Exists([q], z3.And(q >= 0, q < m, pos(q) == r))
+            arr.assign_fn(lambda r, *c: z3.If(hit(r), fv.get(writer(r), *c), old.get(r, *c)))
+            return None
         raise Unsupported("fancy store %r" % (idx,))
     R.fancy_set = fancy_set
 
@@ -960,12 +977,13 @@ def install(R):
             fi = idx.snapshot()
             i = z3.Int(fresh_name("fi"))
             inb = z3.ForAll([i], z3.Implies(z3.And(i >= 0, i < z(idx.shape[0])),
-                                            z3.And(fi.get(i) >= 0, fi.get(i) < n)))
-            # numpy accepts -n <= j < n; indices are required non-negative here (conservative)
+                                            z3.And(fi.get(i) >= -n, fi.get(i) < n)))
+            # numpy accepts -n <= j < n (negative positions count from the end)
             E.safety("fancy-index", inb, node, "IndexError")
             fa = arr.snapshot()
             shape = (idx.shape[0],) + tuple(arr.shape[1:])
-            nanfn = (lambda r, *c: fa.isnan(fi.get(r), *c)) if fa.cell.nan is not None else None
-            return NdArr.from_fn("take", shape, arr.kind, lambda r, *c: fa.get(fi.get(r), *c), nanfn)
+            pos = lambda r: z3.If(fi.get(r) < 0, fi.get(r) + n, fi.get(r))
+            nanfn = (lambda r, *c: fa.isnan(pos(r), *c)) if fa.cell.nan is not None else None
+            return NdArr.from_fn("take", shape, arr.kind, lambda r, *c: fa.get(pos(r), *c), nanfn)
         raise Unsupported("fancy index %r at %s" % (idx, E.where(node)))
     R.fancy_get = fancy_get
